@@ -9,5 +9,6 @@ CONSTANTS
   HistOps = {"attestation", "randao"}
   HistKinds = {"plain"}
   HistFails = {"none"}
+  GateModes = {"d"}
 INVARIANTS Emit
 CHECK_DEADLOCK FALSE
